@@ -231,6 +231,19 @@ def cpp_arg(X, d, L):
     return 'x.p%s' % X
 
 
+def cpp_ptype(p):
+    m = re.match(r'^(.*?)(\w+)\s*(\[[^\]]*\])?$', p.strip())
+    ty, arr = m.group(1).strip(), m.group(3) or ''
+    if ty == 'Element &':
+        ty = 'Goldilocks3::Element &'
+    return ty + ' ' + arr if arr else ty
+
+
+def cpp_fnptr(r):
+    """the overload is selected by its exact declared signature, not by overload resolution on the arguments"""
+    return 'static_cast<void (*)(%s)>(&Goldilocks3::%s)' % (', '.join(cpp_ptype(p) for p in r['sig'].split(', ')), r['name'])
+
+
 def cpp_call(r):
     L = r['L']
     v = 'v8' if L == 8 else 'v4'
@@ -241,7 +254,8 @@ def cpp_call(r):
     for k, val in sub.items():
         s = s.replace(k, val)
     assert '{' not in s, s
-    return s
+    assert s.startswith('Goldilocks3::%s(' % r['name'])
+    return cpp_fnptr(r) + s[len('Goldilocks3::' + r['name']):]
 
 
 def cpp_desc(d):
